@@ -35,10 +35,14 @@ from jinja2 import nodes
 class Sym:
     """A value unknown statically; canon is its canonical access path."""
 
-    __slots__ = ("canon",)
+    __slots__ = ("canon", "term")
 
-    def __init__(self, canon: str):
+    def __init__(self, canon: str, term=None):
         self.canon = canon
+        # structured form used by the typed environment:
+        # ('root', n) ('attr', t, a) ('elem', t) ('key', t) ('idx', t, i)
+        # ('call', t, [args], {kw}) ('filter', t, name, [args], {kw}) ('item', t, arg) ('opaque', canon)
+        self.term = term if term is not None else ("opaque", canon)
 
     def __repr__(self):
         return f"Sym({self.canon})"
@@ -322,7 +326,7 @@ class Valuation:
 
 
 class TemplateSet:
-    def __init__(self, root: str):
+    def __init__(self, root: str, unfold=None):
         self.root = root
         self.env = jinja2.Environment(
             loader=jinja2.FileSystemLoader(root),
@@ -332,6 +336,9 @@ class TemplateSet:
         )
         self._cache: Dict[str, nodes.Template] = {}
         self._src: Dict[str, str] = {}
+        # attr name -> parts: string-building properties unfolded by definition
+        # (filled from Engine P by callers: vlib.pymodel.string_properties)
+        self.unfold: Dict[str, list] = dict(unfold or {})
 
     def names(self) -> List[str]:
         return sorted(self.env.list_templates())
@@ -479,11 +486,13 @@ class Renderer:
     MAX_INCLUDE_DEPTH = 2
     MAX_MACRO_DEPTH = 12
 
-    def __init__(self, ts: TemplateSet, valuation: Valuation, const_roots: Optional[dict] = None):
+    def __init__(self, ts: TemplateSet, valuation: Valuation, const_roots: Optional[dict] = None, known_roots=None):
         self.ts = ts
+        self.known_roots = known_roots
         self.val = valuation
         self.holes: Dict[str, str] = {}   # canon -> placeholder
         self.roots: set = set()
+        self.uses: Dict[Tuple[str, str], tuple] = {}
         self.opaque: List[str] = []
         self.notes: List[str] = []
         self.guards: Tuple = ()
@@ -499,7 +508,9 @@ class Renderer:
         segs = self.render_template(name)
         text = "".join(s.text for s in segs)
         holes = {ph: canon for canon, ph in self.holes.items()}
-        return Skeleton(name, text, segs, holes, self.val, sorted(self.roots), self.opaque, self.notes)
+        sk = Skeleton(name, text, segs, holes, self.val, sorted(self.roots), self.opaque, self.notes)
+        sk.uses = self.uses
+        return sk
 
     def render_template(self, name: str, scope: Optional[Scope] = None) -> List[Seg]:
         tree = self.ts.parse(name)
@@ -692,6 +703,7 @@ class Renderer:
                     out.extend(self.body(n.else_, scope))
                 return out
             canon_full = self.canon_val(it)
+            self.use(it, "iter", n.lineno)
             base, filt_tests = self.strip_order_filters(canon_full)
             uses_loop = any(isinstance(x, nodes.Name) and x.name == "loop" for x in n.find_all(nodes.Name))
             coll = re.sub(r"\.(items|values|keys)\(\)$", "", base)
@@ -751,20 +763,36 @@ class Renderer:
         return canon, tests
 
     def bind_loop_target(self, target, it, base: str, sc: Scope):
+        it_term = self.strip_order_term(self.term_val(it))
         if isinstance(target, nodes.Name):
-            sc.vars[target.name] = Sym("ELEM(" + base + ")")
+            sc.vars[target.name] = Sym("ELEM(" + base + ")", ("elem", it_term))
             return
         if isinstance(target, nodes.Tuple) and len(target.items) == 2 and base.endswith(".items()"):
             m = base[: -len(".items()")]
             k, v = target.items
-            self.bind_target(k, Sym("KEY(" + m + ")"), sc)
-            self.bind_target(v, Sym("ELEM(" + m + ".values())"), sc)
+            mt = it_term[1][1] if it_term[0] == "call" and it_term[1][0] == "attr" and it_term[1][2] == "items" else ("opaque", m)
+            self.bind_target(k, Sym("KEY(" + m + ")", ("key", mt)), sc)
+            self.bind_target(v, Sym("ELEM(" + m + ".values())", ("elem", ("call", ("attr", mt, "values"), [], {}))), sc)
             return
         if isinstance(target, nodes.Tuple):
             for i, t in enumerate(target.items):
-                self.bind_target(t, Sym(f"ELEM({base})[{i}]"), sc)
+                self.bind_target(t, Sym(f"ELEM({base})[{i}]", ("idx", ("elem", it_term), i)), sc)
             return
         raise NotImplementedError("loop target")
+
+    def strip_order_term(self, t):
+        while t[0] == "filter" and t[2] in ORDER_FILTERS | {"selectattr", "rejectattr", "dictsort"}:
+            if t[2] == "dictsort":
+                return ("call", ("attr", t[1], "items"), [], {})
+            t = t[1]
+        return t
+
+    def term_val(self, v):
+        if isinstance(v, Sym):
+            return v.term
+        if is_const(v):
+            return ("const", v)
+        return ("opaque", self.canon_val(v))
 
     def bind_target(self, target, value, sc: Scope, assign=False):
         if isinstance(target, nodes.Name):
@@ -780,7 +808,7 @@ class Renderer:
             else:
                 c = self.canon_val(value)
                 for i, t in enumerate(target.items):
-                    self.bind_target(t, Sym(f"{c}[{i}]"), sc, assign)
+                    self.bind_target(t, Sym(f"{c}[{i}]", ("idx", self.term_val(value), i)), sc, assign)
             return
         raise NotImplementedError("bind target " + type(target).__name__)
 
@@ -860,6 +888,9 @@ class Renderer:
             if is_const(a) and is_const(b):
                 return False, "", self.compare_const(op, a, b)
             ca, cb = self.canon_val(a), self.canon_val(b)
+            if not peek:
+                self.use(a, "test", getattr(e, "lineno", 0))
+                self.use(b, "test", getattr(e, "lineno", 0))
             # length normal forms
             if ca.endswith("|length()") and is_const(b) and isinstance(b, int):
                 x = ca[: -len("|length()")]
@@ -873,23 +904,29 @@ class Renderer:
                 return True, f"{ca} in {cb}", _MISSING
             opmap = {"eq": "==", "gt": ">", "lt": "<", "gteq": ">=", "lteq": "<=", "in": "in"}
             return False, f"{ca} {opmap.get(op, op)} {cb}", _MISSING
+        if isinstance(e, nodes.Test) and e.name in ("defined", "undefined") and isinstance(e.node, nodes.Name) \
+                and scope.lookup(e.node.name) is _MISSING:
+            if self.known_roots is None:
+                return e.name == "undefined", e.node.name + " is defined", _MISSING
+            return False, "", (e.node.name in self.known_roots) == (e.name == "defined")
         if isinstance(e, nodes.Test):
             v = self.eval(e.node, scope, peek=peek)
+            if not peek:
+                self.use(v, "test", getattr(e, "lineno", 0))
             if e.name == "none":
                 if is_const(v):
                     return False, "", v is None
                 return False, self.canon_val(v) + " is none", _MISSING
             if e.name in ("defined", "undefined"):
-                if isinstance(e.node, nodes.Name) and scope.lookup(e.node.name) is _MISSING:
-                    # a root the generator may or may not pass: atom
-                    return e.name == "undefined", e.node.name + " is defined", _MISSING
-                return False, "", e.name == "defined"
+                return False, "", (e.name == "defined")
             return False, self.canon_val(v) + " is " + e.name, _MISSING
         v = self.eval(e, scope, peek=peek)
         if isinstance(v, Segs):
             v = v.text() if v.is_const() else Sym(self.canon_expr(e, scope))
         if is_const(v):
             return False, "", v
+        if not peek:
+            self.use(v, "test", getattr(e, "lineno", 0))
         c = self.canon_val(v)
         if c.endswith("|length()"):
             c = c[: -len("|length()")]
@@ -936,7 +973,7 @@ class Renderer:
                 if e.name == "namespace":
                     return Sym("namespace")
                 self.roots.add(e.name)
-                return Sym(e.name)
+                return Sym(e.name, ("root", e.name))
             return v
         if isinstance(e, nodes.Getattr):
             base = self.eval(e.node, scope, peek)
@@ -955,7 +992,7 @@ class Renderer:
                 return base[arg]
             if isinstance(base, NS) and arg in base.d:
                 return base.d[arg]
-            return Sym(f"{self.canon_val(base)}[{self.canon_val(arg)}]")
+            return Sym(f"{self.canon_val(base)}[{self.canon_val(arg)}]", ("item", self.term_val(base), self.term_val(arg)))
         if isinstance(e, nodes.Call):
             return self.call(e, scope, peek)
         if isinstance(e, nodes.Filter):
@@ -970,7 +1007,18 @@ class Renderer:
                     return Sym(self.canon_expr(e, scope))
                 v = f[1]
             else:
-                v, _ = self.decide(e.test, scope)
+                v, f = self.decide(e.test, scope)
+                saved = self.guards
+                if f[0] != "c":
+                    self.guards = saved + ((f if v else f_not(f)),)
+                try:
+                    if v:
+                        return self.eval(e.expr1, scope, peek)
+                    if e.expr2 is None:
+                        return ""
+                    return self.eval(e.expr2, scope, peek)
+                finally:
+                    self.guards = saved
             if v:
                 return self.eval(e.expr1, scope, peek)
             if e.expr2 is None:
@@ -1049,7 +1097,21 @@ class Renderer:
 
     def getattr(self, base, attr):
         if isinstance(base, Sym):
-            return Sym(base.canon + "." + attr)
+            parts = self.ts.unfold.get(attr)
+            if parts is not None:
+                out = []
+                for p in parts:
+                    if p[0] == "lit":
+                        out.append(p[1])
+                    elif p[0] == "attr":
+                        out.append(Sym(base.canon + "." + p[1], ("attr", base.term, p[1])))
+                    else:  # ('cond', attr, if_true, if_false)
+                        a = base.canon + "." + p[1]
+                        v = self.val.atom(a, ("unfold", a))
+                        out.append(p[2] if v else p[3])
+                out = [x for x in out if x != ""]
+                return Cat(out)
+            return Sym(base.canon + "." + attr, ("attr", base.term, attr))
         if isinstance(base, dict):
             if attr in base:
                 return base[attr]
@@ -1077,6 +1139,15 @@ class Renderer:
             return self.call_macro(f, e, scope)
         args = [self.eval(a, scope, peek) for a in e.args]
         kwargs = {k.key: self.eval(k.value, scope, peek) for k in e.kwargs}
+        if e.dyn_args is not None:
+            da = self.eval(e.dyn_args, scope, peek)
+            args = args + (list(da) if isinstance(da, (list, tuple)) else [Sym("*" + self.canon_val(da))])
+        if e.dyn_kwargs is not None:
+            dk = self.eval(e.dyn_kwargs, scope, peek)
+            if isinstance(dk, dict) and not isinstance(dk, SymDict):
+                kwargs.update(dk)
+            else:
+                kwargs["**"] = dk
         if isinstance(f, StrMeth):
             if all(is_const(a) for a in args) and all(is_const(v) for v in kwargs.values()):
                 try:
@@ -1113,7 +1184,8 @@ class Renderer:
         if isinstance(f, Sym):
             if f.canon == "namespace":
                 return NS(dict(kwargs))
-            return Sym(f"{f.canon}({self.canon_args(args, kwargs)})")
+            return Sym(f"{f.canon}({self.canon_args(args, kwargs)})",
+                       ("call", f.term, [self.term_val(a) for a in args], {k: self.term_val(v) for k, v in kwargs.items()}))
         return Sym(f"{self.canon_val(f)}({self.canon_args(args, kwargs)})")
 
     def canon_args(self, args, kwargs):
@@ -1134,6 +1206,24 @@ class Renderer:
                 given[params[i]] = self.eval(a, scope)
         for k in e.kwargs:
             given[k.key] = self.eval(k.value, scope)
+        if e.dyn_kwargs is not None:
+            dk = self.eval(e.dyn_kwargs, scope)
+            if isinstance(dk, dict):
+                for k, v in dk.items():
+                    given[k] = v
+            else:
+                self.opaque.append(f"**kwargs of unknown shape in call of {node.name} at {self.cur()}:{e.lineno}")
+                for p in params:
+                    given.setdefault(p, Sym(f"{self.canon_val(dk)}.{p}"))
+        if e.dyn_args is not None:
+            da = self.eval(e.dyn_args, scope)
+            if isinstance(da, (list, tuple)):
+                for i, v in enumerate(da, start=len(e.args)):
+                    if i < len(params):
+                        given[params[i]] = v
+        extra = [k for k in given if k not in params]
+        if extra or len(e.args) > len(params):
+            self.notes.append(f"macro {node.name} called with unexpected argument(s) {extra or 'positional'} at {self.cur()}:{e.lineno}")
         for i, p in enumerate(params):
             if p in given:
                 v = given[p]
@@ -1197,11 +1287,13 @@ class Renderer:
             return Cat(parts)
         if isinstance(value, (list, tuple)) and name in ("list", "sort", "unique") and not args and not kwargs:
             return list(value)
-        if name == "string" and isinstance(value, Sym):
-            return Sym(value.canon + "|string()")
-        if name == "default" and isinstance(value, Sym):
-            return Sym(f"{value.canon}|default({self.canon_args(args, kwargs)})")
-        return Sym(f"{self.canon_val(value)}|{name}({self.canon_args(args, kwargs)})")
+        if name in ("first", "last"):
+            k = (self.canon_val(value), name)
+            if k not in self.uses:
+                self.uses[k] = (self.term_val(value), self.cur(), getattr(f, "lineno", 0), self.guards)
+        return Sym(f"{self.canon_val(value)}|{name}({self.canon_args(args, kwargs)})",
+                   ("filter", self.term_val(value), name, [self.term_val(a) for a in args],
+                    {k: self.term_val(v) for k, v in kwargs.items()}))
 
     def text_filter(self, value, fn):
         if isinstance(value, Segs):
@@ -1250,6 +1342,12 @@ class Renderer:
             return f"EXPR({type(e).__name__}@{getattr(e, 'lineno', 0)})"
 
     # -- output ----------------------------------------------------------------
+    def use(self, v, kind, line):
+        if isinstance(v, Sym):
+            k = (v.canon, kind)
+            if k not in self.uses:
+                self.uses[k] = (v.term, self.cur(), line, self.guards)
+
     def placeholder(self, canon: str) -> str:
         ph = self.holes.get(canon)
         if ph is None:
@@ -1267,6 +1365,7 @@ class Renderer:
                 out.extend(self.emit(p, node))
             return out
         if isinstance(v, Sym):
+            self.use(v, "print", line)
             return [Seg(self.placeholder(v.canon), "h", self.cur(), line, self.guards, v.canon)]
         if v is None:
             return [Seg("None", "c", self.cur(), line, self.guards)]
@@ -1277,6 +1376,18 @@ class Renderer:
             c = self.canon_val(v)
             return [Seg(self.placeholder(c), "h", self.cur(), line, self.guards, c)]
         return [Seg(str(v), "c", self.cur(), line, self.guards)]
+
+
+def root_of(term):
+    """root name of a structured term, or None."""
+    while True:
+        k = term[0]
+        if k == "root":
+            return term[1]
+        if k in ("attr", "elem", "key", "idx", "item", "call", "filter"):
+            term = term[1]
+            continue
+        return None
 
 
 def is_const(v) -> bool:
@@ -1389,13 +1500,13 @@ def trim_segs(segs: List[Seg]) -> List[Seg]:
 
 
 def render(ts: TemplateSet, name: str, forced=None, default=True, loop_default=1,
-           constraints=None, const_roots=None, salt=None) -> Skeleton:
+           constraints=None, const_roots=None, salt=None, known_roots=None) -> Skeleton:
     val = Valuation(forced, default, loop_default, constraints, salt)
-    return Renderer(ts, val, const_roots).render(name)
+    return Renderer(ts, val, const_roots, known_roots).render(name)
 
 
 def cover(ts: TemplateSet, name: str, constraints=None, const_roots=None, max_runs=4000,
-          loop_arities=(0, 1), seeds=((True, 1), (False, 1)), want2_all=False):
+          loop_arities=(0, 1), seeds=((True, 1), (False, 1)), want2_all=False, known_roots=None):
     """Greedy concolic-style search for a set of consistent valuations that
     covers every (decision site, outcome) reachable in the template.
 
@@ -1412,7 +1523,7 @@ def cover(ts: TemplateSet, name: str, constraints=None, const_roots=None, max_ru
         forced, default, ld = queue.pop(0)
         runs += 1
         val = Valuation(forced, default, ld, constraints)
-        r = Renderer(ts, val, const_roots)
+        r = Renderer(ts, val, const_roots, known_roots)
         try:
             sk = r.render(name)
         except Infeasible:
